@@ -119,10 +119,32 @@ def _run_job(args):
         r = JobResult()
         r.violations.append(Violation("checker:job-memory", "checker:job-memory", {"job": repr(job)[:300]}, "job exceeded memory limit"))
         return r
-    except Exception:
+    except Exception as e:  # noqa: BLE001
         r = JobResult()
-        r.violations.append(Violation("checker:job-crash", "checker:job-crash", {"job": repr(job)[:300]}, traceback.format_exc()[-1500:]))
+        where = _library_frame(e)
+        if where:
+            # an exception that escaped from library code at a place where the check did not expect one (it never happens on a tree where the
+            # property holds, or the check would be broken there): reported as a violation, replayable through the job
+            v = Violation(f"unexpected-exception:{type(e).__name__}", f"unexpected-exception|{type(e).__name__}@{where}", {"job_crash": True},
+                          f"{type(e).__name__} escaped from {where}: {e!r}\n" + traceback.format_exc()[-900:], {"exception": type(e).__name__, "where": where})
+            v.job = job
+            r.violations.append(v)
+        else:
+            r.violations.append(Violation("checker:job-crash", "checker:job-crash", {"job": repr(job)[:300]}, traceback.format_exc()[-1500:]))
         return r
+
+
+def _library_frame(e: BaseException) -> str:
+    """Innermost traceback frame that lies in the library under test ('' if the exception never touched it)."""
+    root = os.path.realpath(os.environ.get("VERIF_REPO", "/repo"))
+    tb = e.__traceback__
+    where = ""
+    while tb is not None:
+        fn = tb.tb_frame.f_code.co_filename
+        if fn.startswith(root + os.sep) or fn.startswith("<compiled"):
+            where = f"{os.path.relpath(fn, root) if fn.startswith(root) else '<compiled>'}:{tb.tb_frame.f_code.co_name}"
+        tb = tb.tb_next
+    return where
 
 
 def _replay_file(pid: str, v: Violation) -> str:
